@@ -1747,6 +1747,7 @@ class Analyzer:
             self.res.stats["loads"] -= 1
             raise Split(cases, "oob")
         self.res.stats["loads_inbounds"] += 1
+        st.notes.append(("load", p.glob, p.off.lin.div(esz), i.line))
         if p.al % esz:
             raise Broken("cannot prove table access is element aligned")
         lo = -((-lo) // esz) * esz
